@@ -237,6 +237,28 @@ pub fn apply(w: &mut RouterWorld, cfg: &Cfg, a: &Act) {
                 w.send(ci, v);
             }
         }
+        Act::AckNThen { c, n, then } => {
+            let ci = *c as usize;
+            let mut v = vec![];
+            for _ in 0..*n {
+                if let Some((pkid, q)) = w.clients[ci].unacked.pop_front() {
+                    v.push(if q == 1 { Tx::PubAck(pkid) } else { Tx::PubRec(pkid) });
+                }
+            }
+            match then {
+                0 => v.push(Tx::PingReq),
+                1 => {
+                    let pkid = next_pkid(w, ci);
+                    let f = cfg.filters.last().cloned().unwrap_or_else(|| "zz".into());
+                    v.push(Tx::Subscribe { pkid, filters: vec![(f, 0)], sub_id: None });
+                }
+                _ => {
+                    let p = make_publish(w, cfg, ci, 0, 1, false, false, 0);
+                    v.push(p);
+                }
+            }
+            w.send(ci, v);
+        }
         Act::CompN { c, n } => {
             let ci = *c as usize;
             let mut v = vec![];
@@ -605,6 +627,11 @@ fn enabled_c09(w: &RouterWorld, cfg: &Cfg, v: &mut Vec<(Act, u8)>) {
             if cl.unacked.len() >= 2 {
                 v.push((Act::AckN { c: s, n: 50 }, 0));
                 v.push((Act::AckN { c: s, n: 100 }, 0));
+                // the acknowledgements share their batch with a request that wants a reply
+                v.push((Act::AckNThen { c: s, n: 100, then: 0 }, 0));
+                if cfg.variant == 0 {
+                    v.push((Act::AckNThen { c: s, n: 100, then: 2 }, 0));
+                }
                 if !w.manual {
                     v.push((Act::Bad { c: s, kind: 4 }, 0));
                 }
